@@ -20,6 +20,7 @@ HARNESSES = [
     (("c41_helpers", "plain", ["c41_helpers.cc"]), {"extra_ld": ["-lrapidcheck"]}),
     (("c42_interned", "plain", ["c42_interned.cc"]), {"extra_ld": ["-lrapidcheck"]}),
     (("c27_regex", "plain", ["c27_regex.cc"]), {"extra_ld": ["-lrapidcheck"]}),
+    (("c21_eqhash", "plain", ["c21_eqhash.cc"]), {"extra_ld": []}),
 ]
 
 _T1 = "trusted base: system gcc/clang/ld/readelf, CPython + Hypothesis, the model/renderer in vlib/gen; tools are rebuilt from /repo's working tree (g++ -O1, asserts live)"
@@ -62,6 +63,8 @@ REG = {
                 text="Generated C libraries with aliases, weak, hidden, static definitions and translation units without debug info; every exported interface must be attached to exactly one declaration or be a bare symbol, and each removed interface must show up exactly once in the right section; exploration only.", note=_T1),
     "C20": dict(engine="progfuzz", technique="property-based testing (generated hard type graphs fed to the library's own canonicalization self-checks in a -DWITH_DEBUG_TYPE_CANONICALIZATION -DWITH_DEBUG_SELF_COMPARISON build)",
                 text="Generated recursive / anonymous / same-named / C++ class types; abidw --debug-tc and --debug-abidiff must stay silent; diagnostics are keyed by message family and kind of type so that the two families seen on every input (function / method types, the void id) are known findings and any other kind is a violation; exploration only.", note=_T1 + "; the library's debug self-checks"),
+    "C21": dict(engine="apicheck", technique="property-based testing (generated program pairs loaded into one environment by a C++ executor; algebraic laws over all enumerated artifact pairs: symmetry of ==, == implies equal hash, compute_diff has_changes <=> !=)",
+                text="Generated (P, P') pairs; the executor enumerates same-identity functions/variables across the corpora and all pairs of named types of a corpus (up to 1830 pairs per case) through the public API; two aborts of the diff engine (array subranges, duplicated anonymous member) are known findings; exploration only.", note=_T2 + "; program generator of vlib/gen"),
     "C22": dict(engine="progfuzz", technique="property-based testing (differential: report with an unsatisfiable generated suppression file vs report without)",
                 text="Generated pairs x suppression files whose every section is unsatisfiable by construction of the programs; output and status must equal the baseline; two recorded defects (bare symbols, drop path) are known findings recognised from the diff shape / by re-running without drop; exploration only.", note=_T1),
     "C18": dict(engine="progfuzz", technique="property-based testing (differential against readelf: multiset of symbol attributes and alias groups)",
